@@ -149,6 +149,18 @@ class HilbertClimateNetwork(ClimateNetwork):
             if directed:
                 self.adjacency = self.adjacency * (self.phase_shift() > 0)
 
+    def set_threshold(self, threshold):
+        """
+        Generate the Hilbert climate network by thresholding, see
+        :meth:`.ClimateNetwork.set_threshold`. For a directed network only the
+        links along positive phase shifts are kept, as at construction time.
+
+        :arg number threshold: The similarity threshold.
+        """
+        ClimateNetwork.set_threshold(self, threshold)
+        if self.directed and self._coherence_phase is not None:
+            self._set_directed(True, calculate_coherence=False)
+
     def set_directed(self, directed):
         """
         Switch between directed and undirected Hilbert climate network.
